@@ -80,7 +80,36 @@ func VHCommandArgs() {
 		if isText && prevWasText {
 			vAssume(false) // the lexer never delivers two adjacent COMMAND_TEXT tokens
 		}
-		if isText {
+		if isText && vParam("WORDS", 0) > 0 {
+			// word-level chunks (longer commands than the byte-level bound reaches): 1..WORDS words of one symbolic
+			// character each, single spaces or tabs between them, optional whitespace at either end
+			tag := "item" + vItoa(k)
+			nw := 1 + vChoose(tag+".nwords", vParam("WORDS", 0))
+			var b []byte
+			sep := func(name string) byte {
+				if vChoose(name, 2) == 1 {
+					return '\t'
+				}
+				return ' '
+			}
+			if vChoose(tag+".leadws", 2) == 1 {
+				b = append(b, ' ')
+			}
+			for w := 0; w < nw; w++ {
+				if w > 0 {
+					b = append(b, sep(tag+".sep"+vItoa(w)))
+				}
+				c := vByte(tag + ".w" + vItoa(w))
+				vAssume(vAnd(c >= 'a', c <= 'z')) // one letter: never a number or a boolean (those are the byte-level instances' business)
+				b = append(b, c)
+			}
+			if vChoose(tag+".trailws", 2) == 1 {
+				b = append(b, ' ')
+			}
+			cs.Elements = append(cs.Elements, &CommandStatementElement{text: string(b)})
+			acc = append(acc, b...)
+			vReach("word-chunk")
+		} else if isText {
 			l := 1 + vChoose("item"+vItoa(k)+".len", n)
 			s := vString("item"+vItoa(k)+".text", l)
 			for i := 0; i < l; i++ {
